@@ -38,14 +38,20 @@ pub const fn mulsign(x: P32E2, y: P32E2) -> P32E2 {
 
 mod kernel {
     use super::*;
-    // TODO: |n| > 111
-    pub const fn pow2i(mut n: i32) -> P32E2 {
+    pub const fn pow2i(n: i32) -> P32E2 {
         let sign = n.is_negative();
-        if sign {
-            n = -n;
+        let n = n.unsigned_abs();
+        if n >= 120 {
+            // 2^120 is maxpos: saturate, as every posit operation does
+            return if sign { P32E2::MIN_POSITIVE } else { P32E2::MAX };
         }
         let k = n >> 2;
-        let ex: u32 = ((n & 0x3) as u32) << (27 - k);
+        // beyond a 28-bit regime the low exponent bits no longer fit in the word
+        let ex: u32 = if k <= 27 {
+            (n & 0x3) << (27 - k)
+        } else {
+            (n & 0x3) >> (k - 27)
+        };
         let ui = (0x7FFF_FFFF ^ (0x3FFF_FFFF >> k)) | ex;
 
         if sign {
